@@ -533,7 +533,3 @@ mod tests {
         assert_eq!(beam_output.score(), expected_score);
     }
 }
-
-#[cfg(kani)]
-#[path = "/verif/kani/rten/ctc.rs"]
-mod verif_kani;
